@@ -146,6 +146,21 @@ def judge(res, sig, what, d, truth, out, mef_given, mef_channels, statistic, one
             if not np.allclose(got, want, rtol=1e-9, atol=0):
                 res.violation(sig + ':fit-identity', '%s: the transformation of channel %s differs from the fit to the kept statistics/values' % (what, ch), one)
                 return None
+            # the same transformation applied to a sample whose columns are arranged differently from the bead file
+            d_rev = d[:, list(reversed(names))]
+            pr = make_probe(d_rev, pd_)
+            try:
+                got_r = np.asarray(tf(pr, ch))
+            except Exception as e:
+                res.violation(sig + ':fit-identity-other-layout', '%s: applied to a sample with columns %r the transformation raised %s: %s' % (
+                    what, list(d_rev.channels), type(e).__name__, e), one)
+                return None
+            col_r = list(d_rev.channels).index(ch)
+            others = [i for i in range(got_r.shape[1]) if i != col_r]
+            if not np.allclose(got_r[:, col_r], want, rtol=1e-9, atol=0) or not np.array_equal(got_r[:, others], np.asarray(pr)[:, others]):
+                res.violation(sig + ':fit-identity-other-layout', '%s: applied to a sample with columns %r the transformation does not convert channel %s with its own curve (or touches other channels)' % (
+                    what, list(d_rev.channels), ch), one)
+                return None
             # within 10% of the generating law over the calibrated span
             m, b, auto = truth_law(truth, ci, one)
             nb = [j for j in kept if given[j] > 0]
@@ -381,6 +396,9 @@ def run_b(c, res):
 
 
 def cases(tier, seed):
+    for scale in ('logicle', 'log', 'linear'):
+        for cont in ('sample', 'array'):
+            yield dict(kind='selection', scale=scale, cont=cont)
     for c in layer_a_cases(tier):
         yield c
     for c in layer_b_cases(tier, seed):
@@ -392,8 +410,59 @@ def bounds(tier, seed):
             'layer_B': 'lattice within %d deviation(s) x %d noise streams (seed %d)' % (1 if tier == 'quick' else 2, 2 if tier == 'quick' else 4, seed)}
 
 
+def run_selection(c, res):
+    """the exclusion rule with explicit thresholds: every combination of {given, defaulted} low / high"""
+    import FlowCal
+    spec = dict(DEFAULT, n_pop=6, n_events=50, laws=LAWS3, order='sorted', decades=4)
+    d, truth = load(spec, 's')
+    tl = np.asarray(truth['labels'])
+    ch = truth['fl_names'][0]
+    if c['cont'] == 'sample':
+        pops = [d[tl == j][:, [ch]] for j in range(6)]
+    else:
+        pops = [np.array(d[tl == j][:, [ch]].view(np.ndarray)) for j in range(6)]
+    centres = [float(np.median(np.asarray(p))) for p in pops]
+    sel = lambda **kw: np.asarray(FlowCal.mef.selection_std([p for p in pops], scale=c['scale'], **kw), dtype=bool)
+    lows = [None, centres[0] * 1.5, centres[1] * 1.6, 0.5]
+    highs = [None, centres[-1] / 1.5, centres[-2] / 1.6, centres[-1] * 50]
+    if c['cont'] == 'array':
+        lows, highs = lows[1:], highs[1:]             # plain arrays have no range to default from
+    for lo in lows:
+        for hi in highs:
+            one = dict(c)
+            what = 'selection_std(6 populations at %s, low=%r, high=%r, scale=%r)' % ([round(x, 1) for x in centres], lo, hi, c['scale'])
+            try:
+                m_lh = sel(**{k_: v for k_, v in (('low', lo), ('high', hi)) if v is not None})
+                m_l = sel(**({'low': lo} if lo is not None else {})) if c['cont'] == 'sample' else None
+                m_h = sel(**({'high': hi} if hi is not None else {})) if c['cont'] == 'sample' else None
+                m_0 = sel() if c['cont'] == 'sample' else None
+            except Exception as e:
+                res.violation('selection:raises:%s' % type(e).__name__, '%s raised %s: %s' % (what, type(e).__name__, e), one)
+                continue
+            bad = None
+            for j in range(6):
+                v = np.asarray(pops[j], dtype=float)
+                if hi is not None and np.all(v > hi) and m_lh[j]:
+                    bad = 'population #%d lies entirely above the high threshold but is selected' % j
+                if lo is not None and np.all(v < lo) and m_lh[j]:
+                    bad = 'population #%d lies entirely below the low threshold but is selected' % j
+            if bad is None and m_0 is not None:
+                # the rule is a conjunction of an independent low condition and high condition
+                if not np.array_equal(m_l & m_h, m_lh & m_0):
+                    bad = 'the masks for (low only) %s and (high only) %s do not combine to the mask for both %s and the default mask %s' % (
+                        m_l.astype(int).tolist(), m_h.astype(int).tolist(), m_lh.astype(int).tolist(), m_0.astype(int).tolist())
+            if bad:
+                res.violation('selection:thresholds', '%s: %s' % (what, bad), one)
+            else:
+                res.ok('selection', lo is not None or hi is not None)
+    res.sample({'selection_std': 'explicit / defaulted thresholds', 'scale': c['scale'], 'container': c['cont']})
+
+
 def run_case(c):
     res = Result()
+    if c['kind'] == 'selection':
+        run_selection(c, res)
+        return res
     if c['kind'] == 'A':
         run_a(c, res)
     else:
